@@ -18,5 +18,7 @@ for (pid, s), lines in sorted(blocks.items()):
     if os.path.isdir(d):
         open(d + '/verified.txt', 'w').write(''.join(lines))
         txt = ''.join(lines)
-        det = 'DETECTED' if re.search(r'^VIOLATION property=' + pid, txt, re.M) else 'not-detected-by-' + pid
+        own = re.search(r'^VIOLATION property=' + pid, txt, re.M)
+        other = sorted(set(re.findall(r'^VIOLATION property=(C\d\d)', txt, re.M)) - {pid})
+        det = 'DETECTED' if own else ('detected-by-' + ','.join(other) if other else 'not-detected-by-' + pid)
         print(pid, 'seed' + s, det)
